@@ -3,7 +3,7 @@
 mkdir -p /tmp/ingest_logs/locks
 while true; do
   did=0
-  for m in /tmp/seedwork/C*/seed_out/*/meta.json /tmp/seedwork2/C*/seed_out/*/meta.json /tmp/seedwork3/C*/seed_out/*/meta.json; do
+  for m in /tmp/seedwork/C*/seed_out/*/meta.json /tmp/seedwork2/C*/seed_out/*/meta.json /tmp/seedwork3/C*/seed_out/*/meta.json /tmp/seedwork4/C*/seed_out/*/meta.json; do
     [ -f "$m" ] || continue
     d=$(dirname "$m"); n=$(basename "$d"); p=$(basename $(dirname $(dirname "$d")))
     [ -f "$d/patch.diff" ] && [ -f "$d/demo.py" ] || continue
